@@ -168,6 +168,32 @@ def _writer_loop(mode: int, w: int, nr: int, recf, fname: str) -> None:
             MX.write_or_buffer(fname, recf(w, s))
 
 
+def long_capture_run(logdir: str, tag: str, nr: int) -> List[int]:
+    """ONE LogMux capture that holds nr records of one writer (a stage that logs a lot inside one compute phase), flushed
+    after the capture; returns the sequence numbers in file order (must be 1..nr)"""
+    import clematis.io.log as L
+    from clematis.engine.util import logmux as MX
+    os.environ["CLEMATIS_LOG_DIR"] = logdir
+    fname = f"{STREAM[:-6]}_{tag}.jsonl"
+    mux = MX.LogMux()
+    with MX.use_mux(mux):
+        for s in range(1, nr + 1):
+            if s % 2:
+                L.append_jsonl(fname, {"w": 1, "s": s})
+            else:
+                MX.write_or_buffer(fname, {"w": 1, "s": s})
+    MX.flush(mux.dump())
+    out: List[int] = []
+    with open(os.path.join(logdir, fname), "rb") as f:
+        for line in f.read().split(b"\n"):
+            if line:
+                try:
+                    out.append(int(json.loads(line)["s"]))
+                except Exception:   # noqa: BLE001
+                    out.append(-1)
+    return out
+
+
 def thread_run(logdir: str, tag: str, nw: int, nr: int, seed: int) -> Dict[str, Any]:
     os.environ["CLEMATIS_LOG_DIR"] = logdir
     fname = f"{STREAM[:-6]}_{tag}.jsonl"
